@@ -120,7 +120,7 @@ Qed.
 Lemma restating_premise_v2_5 :
   forallb (fun p : str * sref =>
              match parse_structure w_tables (snd p) with
-             | Ok st => is_ok (msh_admission w_tables STRICT (fst p) st) && is_ok (msh_admission w_tables TOLERANT (fst p) st)
+             | Ok st => is_ok (msh_acceptance w_tables STRICT (fst p) st) && is_ok (msh_acceptance w_tables TOLERANT (fst p) st)
              | Err _ => true
              end) (t_messages w_tables) = true.
 Proof. vm_compute. reflexivity. Qed.
